@@ -1,11 +1,9 @@
 /-
-Helper lemmas for C19, part 9: the `deptest` round trip when ONE value is written
-quoted, as the last item, and is an ASCII string that does not end in a backslash, does
-not start with a space and has no two adjacent spaces (`depQuotedOK`).
-
-`strings.Fields` splits the quoted text at its spaces; the parser's inner loop joins
-the pieces again until one ends in a quote that is not preceded by a backslash. The
-proof follows the pieces through `Quote`'s output escape by escape.
+Helper lemmas for C19, part 9: tools for the `deptest` round trip when ONE value is
+written quoted, as the last item (`depQuotedOK`): `strings.Fields` on text whose only
+white space is the space byte (`af`), the parser's inner loop over the pieces
+(`joinQuoted_run`), and the bookkeeping of the writer's items. The pieces themselves are
+followed through `Quote`'s output in C19DepAll (`pieces_chunks`).
 -/
 import DepsDev.Proofs.C19Single
 
@@ -140,167 +138,7 @@ theorem term_false_of_NB (cur : Bytes) (hne : cur ≠ []) (h : NB cur) : term cu
       simp [endsWithBackslashQuote]
     · simp [hc]
 
-/-- The pieces `Fields` cuts `Quote(v)` into (after the opening quote, with the current
-piece `cur`): all but the last do not end the quoted value, the last does, and joined by
-single spaces they are the text again. -/
-theorem pieces (v : Bytes) :
-    ∀ cur : Bytes, isAscii v = true → hasDoubleSpace v = false → v.getLast? ≠ some 0x5C →
-      ((cur = [] ∨ cur = [0x22]) → v.head? ≠ some 0x20) →
-      (v = [] → cur.head? ≠ some 0x5C) → (NB cur ∨ cur = [0x22]) →
-      ∃ init last, af (quoteGo v 0 ++ [0x22]) cur = init ++ [last] ∧
-        (∀ p ∈ init, term p = false) ∧ term last = true ∧
-        join [0x20] (init ++ [last]) = cur.reverse ++ quoteGo v 0 ++ [0x22] := by
-  induction v with
-  | nil =>
-    intro cur _ _ _ _ hend _
-    refine ⟨[], (0x22 :: cur).reverse, ?_, by simp, ?_, ?_⟩
-    · simp [quoteGo, af]
-    · have hc := hend rfl
-      simp only [term, List.getLast?_reverse, List.head?_cons, beq_self_eq_true, Bool.true_and,
-        Bool.not_eq_eq_eq_not, Bool.not_true, Bool.and_eq_false_imp, decide_eq_true_eq]
-      intro _
-      simp only [endsWithBackslashQuote, List.reverse_reverse]
-      cases cur with
-      | nil => rfl
-      | cons c t =>
-        have : c ≠ 0x5C := by simpa using hc
-        split
-        · rename_i heq
-          injection heq with _ heq
-          injection heq with heq _
-          exact absurd heq this
-        · rfl
-    · simp [quoteGo, join]
-  | cons b v ih =>
-    intro cur hasc hds hlast hhead hend hnb
-    simp only [isAscii, List.all_cons, Bool.and_eq_true, decide_eq_true_eq] at hasc
-    have hascv : isAscii v = true := by simpa [isAscii] using hasc.2
-    obtain ⟨hpr, hnosp, hq, hbs⟩ := ascii_escapes2 b.toNat hasc.1
-    obtain ⟨_, _, _, hne, _, _, _⟩ := ascii_escapes b.toNat hasc.1
-    rw [quoteGo_ascii_cons b v hasc.1, List.append_assoc]
-    have hlastv : v ≠ [] → v.getLast? ≠ some 0x5C := by
-      intro hv
-      rwa [List.getLast?_cons_of_ne_nil hv] at hlast
-    have hlastv' : v.getLast? ≠ some 0x5C := by
-      cases v with
-      | nil => simp
-      | cons c t => exact hlastv (by simp)
-    by_cases hb : b = 0x20
-    · -- a space: the current piece is emitted
-      subst hb
-      have hcur : cur ≠ [] ∧ cur ≠ [0x22] := by
-        constructor
-        · intro e; exact hhead (Or.inl e) rfl
-        · intro e; exact hhead (Or.inr e) rfl
-      have hnb' : NB cur := by
-        rcases hnb with h | h
-        · exact h
-        · exact absurd h hcur.2
-      have hdsv : hasDoubleSpace v = false ∧ v.head? ≠ some 0x20 := by
-        cases v with
-        | nil => simp [hasDoubleSpace]
-        | cons c t =>
-          simp only [hasDoubleSpace, Bool.or_eq_false_iff, Bool.and_eq_false_imp, beq_iff_eq] at hds
-          have hc : c ≠ 0x20 := by simpa using hds.1
-          exact ⟨hds.2, by simpa using hc⟩
-      obtain ⟨init, last, haf, hinit, hlst, hjoin⟩ :=
-        ih [] hascv hdsv.1 hlastv' (fun _ => hdsv.2) (fun _ => by simp) (Or.inl (fun h => by simp at h))
-      have he : escapeRune (0x20 : UInt8).toNat = [0x20] := escape_space
-      rw [he]
-      refine ⟨cur.reverse :: init, last, ?_, ?_, hlst, ?_⟩
-      · simp only [List.cons_append, List.nil_append, af, if_true]
-        have : cur.isEmpty = false := by
-          cases cur with
-          | nil => exact absurd rfl hcur.1
-          | cons _ _ => rfl
-        simp [this, haf]
-      · intro p hp
-        simp only [List.mem_cons] at hp
-        rcases hp with e | hp
-        · rw [e]; exact term_false_of_NB cur hcur.1 hnb'
-        · exact hinit p hp
-      · have hne2 : init ++ [last] ≠ [] := by simp
-        cases hil : init ++ [last] with
-        | nil => exact absurd hil hne2
-        | cons x xs =>
-          have : (cur.reverse :: init) ++ [last] = cur.reverse :: x :: xs := by
-            rw [List.cons_append, hil]
-          rw [this, join, ← hil, hjoin]
-          simp
-    · -- an escape without spaces: it extends the current piece
-      have hbn : b.toNat ≠ 0x20 := by
-        intro e; apply hb
-        exact UInt8.toNat.inj (by simpa using e)
-      have hns := hnosp hbn
-      rw [af_nospace _ _ _ hns]
-      have hcur' : (escapeRune b.toNat).reverse ++ cur ≠ [] ∧ (escapeRune b.toNat).reverse ++ cur ≠ [0x22] := by
-        cases he : escapeRune b.toNat with
-        | nil => exact absurd he hne
-        | cons x xs =>
-          constructor
-          · simp
-          · intro e
-            -- the only way is escape = ["], impossible
-            have hlen := congrArg List.length e
-            simp only [List.reverse_cons, List.length_append, List.length_reverse, List.length_cons,
-              List.length_nil] at hlen
-            have hxs : xs = [] := by
-              cases xs with
-              | nil => rfl
-              | cons _ _ => simp at hlen; omega
-            have hc : cur = [] := by
-              cases cur with
-              | nil => rfl
-              | cons _ _ => simp at hlen; omega
-            subst hxs; subst hc
-            simp at e
-            have := hq (by rw [he, e]; rfl)
-            rw [he, e] at this
-            simp at this
-      have hnb2 : NB ((escapeRune b.toNat).reverse ++ cur) := by
-        intro hh
-        have hl : (escapeRune b.toNat).getLast? = some 0x22 := by
-          cases he : (escapeRune b.toNat).reverse with
-          | nil =>
-            have : escapeRune b.toNat = [] := by simpa using he
-            exact absurd this hne
-          | cons x xs =>
-            rw [he] at hh
-            simp only [List.cons_append, List.head?_cons, Option.some.injEq] at hh
-            rw [← List.head?_reverse, he, hh]; rfl
-        rw [hq hl]
-        exact ⟨cur, rfl⟩
-      have hend2 : v = [] → ((escapeRune b.toNat).reverse ++ cur).head? ≠ some 0x5C := by
-        intro hv hh
-        have hl : (escapeRune b.toNat).getLast? = some 0x5C := by
-          cases he : (escapeRune b.toNat).reverse with
-          | nil =>
-            have : escapeRune b.toNat = [] := by simpa using he
-            exact absurd this hne
-          | cons x xs =>
-            rw [he] at hh
-            simp only [List.cons_append, List.head?_cons, Option.some.injEq] at hh
-            rw [← List.head?_reverse, he, hh]; rfl
-        have hb5 := hbs hl
-        subst hv
-        apply hlast
-        have : b = 0x5C := UInt8.toNat.inj (by simpa using hb5)
-        rw [this]; rfl
-      have hdsv : hasDoubleSpace v = false := by
-        cases v with
-        | nil => rfl
-        | cons c t =>
-          simp only [hasDoubleSpace, Bool.or_eq_false_iff] at hds
-          exact hds.2
-      obtain ⟨init, last, haf, hinit, hlst, hjoin⟩ :=
-        ih _ hascv hdsv hlastv'
-          (fun h => by rcases h with h | h; exact absurd h hcur'.1; exact absurd h hcur'.2)
-          hend2 (Or.inl hnb2)
-      refine ⟨init, last, haf, hinit, hlst, ?_⟩
-      rw [hjoin]
-      simp
-
-/-! ### one quoted value -/
+/-! ### pieces are non-empty -/
 
 theorem af_nonempty (X : Bytes) : ∀ cur, ∀ p ∈ af X cur, p ≠ [] := by
   induction X with
@@ -322,54 +160,6 @@ theorem af_nonempty (X : Bytes) : ∀ cur, ∀ p ∈ af X cur, p ≠ [] := by
       · exact ih [] p hp
     · exact ih _ p hp
 
-theorem quoteGo_printable (v : Bytes) (hv : isAscii v = true) : printable (quoteGo v 0) = true := by
-  induction v with
-  | nil => rfl
-  | cons b v ih =>
-    simp only [isAscii, List.all_cons, Bool.and_eq_true, decide_eq_true_eq] at hv
-    rw [quoteGo_ascii_cons b v hv.1]
-    have h1 := (ascii_escapes2 b.toNat hv.1).1
-    have h2 := ih (by simpa [isAscii] using hv.2)
-    simp only [printable, List.all_append, Bool.and_eq_true] at h1 h2 ⊢
-    exact ⟨h1, h2⟩
-
-/-- the deptest parser reads a well-formed quoted ASCII value back. -/
-theorem joinQuoted_quote (v : Bytes) (hv : isAscii v = true) (hok : depQuotedOK v = true) :
-    joinQuoted false none (fields (quote v)) = .ok [v] := by
-  simp only [depQuotedOK, Bool.and_eq_true, bne_iff_ne, ne_eq, Bool.not_eq_eq_eq_not, Bool.not_true] at hok
-  obtain ⟨⟨hlast, hhead⟩, hds⟩ := hok
-  have hpr : printable (quote v) = true := by
-    have := quoteGo_printable v hv
-    simp only [printable, quote, List.all_cons, List.all_append, Bool.and_eq_true] at this ⊢
-    exact ⟨by decide, this, by decide⟩
-  have hf : fields (quote v) = af (quoteGo v 0 ++ [0x22]) [0x22] := by
-    unfold fields
-    rw [fieldsGo_printable _ _ hpr]
-    simp [quote, af]
-  obtain ⟨init, last, haf, hinit, hlst, hjoin⟩ :=
-    pieces v [0x22] hv hds hlast (fun _ => hhead) (fun _ => by simp) (Or.inr rfl)
-  rw [hf, haf]
-  -- the first piece starts with the opening quote
-  have hne : ∀ p ∈ init ++ [last], p ≠ [] := by
-    intro p hp; rw [← haf] at hp; exact af_nonempty _ _ p hp
-  cases hil : init ++ [last] with
-  | nil => simp at hil
-  | cons p1 rest =>
-    have hp1 : p1.head? = some 0x22 := by
-      have h1 := hne p1 (by rw [hil]; simp)
-      have hj := hjoin
-      rw [hil] at hj
-      cases p1 with
-      | nil => exact absurd rfl h1
-      | cons c t =>
-        cases rest with
-        | nil => simp [join] at hj; simp [hj.1]
-        | cons r rs => simp [join] at hj; simp [hj.1]
-    rw [joinQuoted_start p1 rest hp1, ← hil, joinQuoted_run init last false [] hinit hlst]
-    have : join [0x20] ([] ++ init ++ [last]) = quote v := by
-      simp only [List.nil_append, hjoin]; simp [quote]
-    rw [this, unquote_quote v hv]
-
 /-! ### all items -/
 
 /-- the token the parser ends up with for an item: the value itself for a quoted item. -/
@@ -388,41 +178,6 @@ theorem fields_cons_join (t : Bytes) (r1 : Bytes) (rs : List Bytes) (ht : plainT
   cases t with
   | nil => simp at ht
   | cons b t' => simp
-
-theorem items_parse (its : List (Bytes × Option Bytes)) (hq : quotedItemsOK its = true)
-    (hplain : ∀ it ∈ its, it.2 = none → plainTok it.1 = true ∧ it.1.head? ≠ some 0x22)
-    (hquoted : ∀ it ∈ its, ∀ v, it.2 = some v → it.1 = quote v ∧ isAscii v = true) :
-    joinQuoted false none (fields (join [0x20] (its.map (·.1)))) = .ok (its.map itemTok) := by
-  induction its with
-  | nil => simp [join, fields, fieldsGo, joinQuoted]
-  | cons it rest ih =>
-    obtain ⟨t, q⟩ := it
-    cases q with
-    | some v =>
-      cases rest with
-      | nil =>
-        simp only [quotedItemsOK] at hq
-        obtain ⟨e, hv⟩ := hquoted (t, some v) (by simp) v rfl
-        simp only at e
-        subst e
-        simp only [List.map_cons, List.map_nil, join, itemTok]
-        exact joinQuoted_quote v hv hq
-      | cons r rs => simp [quotedItemsOK] at hq
-    | none =>
-      simp only [quotedItemsOK] at hq
-      obtain ⟨hpt, hph⟩ := hplain (t, none) (by simp) rfl
-      simp only at hpt hph
-      have ih' := ih hq (fun it hit => hplain it (by simp [hit])) (fun it hit => hquoted it (by simp [hit]))
-      have hbne : (t.head? != some 0x22) = true := by simpa using hph
-      cases rest with
-      | nil =>
-        simp only [List.map_cons, List.map_nil, join, itemTok]
-        rw [show t = join [0x20] [t] from rfl, fields_join [t] (by simpa using hpt)]
-        exact joinQuoted_plain [t] (by simpa using hph)
-      | cons r rs =>
-        simp only [List.map_cons] at ih' ⊢
-        rw [fields_cons_join t _ _ hpt, joinQuoted]
-        simp only [hbne, if_true, ih', itemTok]
 
 /-- the tokens the parser ends up with are, key by key, the name and the value. -/
 theorem depItems_toks (h : Heap) (s : Set) :
@@ -483,35 +238,5 @@ theorem depItems_facts (h : Heap) (s : Set) :
             rw [hsome]
           · simp [hf, hn] at hit
             rw [hit] at hsome; simp at hsome
-
-/-- `deptest.ParseString(write(t))` equals `t` when every value that must be quoted is
-the last item written, is `depQuotedOK` and is an ASCII string. -/
-theorem dep_roundtrip_quoted (h : Heap) (s : Set) (hs : SetOK h s)
-    (hk : knownKeys C19AttrKeys.depAllKeys C19AttrKeys.depFlagKeys h s = true)
-    (ht : depTextOK h s = true) (ha : depQuotedAscii h s = true) :
-    ∃ h' s', depParseString h (depWrite h s) = .ok (h', s') ∧
-      SetOK h' s ∧ SetOK h' s' ∧ s.attrs h' = s.attrs h ∧ Attr.compare h' s s' = .eq := by
-  obtain ⟨hf1, hf2⟩ := depItems_facts h s
-  have hquoted : ∀ it ∈ depItems h s, ∀ v, it.2 = some v → it.1 = quote v ∧ isAscii v = true := by
-    intro it hit v hv
-    refine ⟨hf2 it hit v hv, ?_⟩
-    have := (List.all_eq_true.mp ha) it hit
-    simpa [hv] using this
-  have hj : joinQuoted false none (fields (depWrite h s)) =
-      .ok (C19AttrKeys.depAllKeys.flatMap (chunk C19AttrKeys.depFlagKeys depName h s)) := by
-    unfold depWrite
-    rw [items_parse (depItems h s) ht hf1 hquoted, depItems_toks]
-  have hpi := parseItems_chunks C19AttrKeys.depNames C19AttrKeys.depAllKeys C19AttrKeys.depFlagKeys
-    depName h s C19AttrKeys.depAllKeys dep_lookup
-  have hmask : maskOfKeys s.mask C19AttrKeys.depAllKeys 0 = s.mask := by
-    simp only [knownKeys, Bool.and_eq_true] at hk
-    exact dep_mask_ok s.mask hk.1
-  obtain ⟨h', s', he, hs', hok, hattrs, hsame⟩ :=
-    calls_same C19AttrKeys.depAllKeys C19AttrKeys.depFlagKeys h s hs hk hmask dep_keys_lt
-  refine ⟨h', s', ?_, hs', hok, hattrs, (compare_eq_iff_same h' s s' hs' hok).mpr hsame⟩
-  unfold depParseString
-  rw [hj]
-  simp only [hpi]
-  exact he
 
 end DepsDev.Proofs.C19
